@@ -343,6 +343,8 @@ var (
 // is returned and the caller may rollback the transaction resulting
 // in no side-effects.
 func (task *Task) Converge() error {
+	verifEmit("converge-enter", nil, task)
+	defer verifEmit("converge-exit", nil, task)
 	var (
 		ctx     = task.ctx
 		t0      = time.Now()
@@ -430,6 +432,7 @@ func (task *Task) Converge() error {
 		if err := pgtx.Commit(ctx); err != nil {
 			return fmt.Errorf("comitting task_updates tx: %w", err)
 		}
+		verifPoint("between-txs", task)
 
 		pgtx, err = task.pgp.Begin(ctx)
 		if err != nil {
@@ -706,6 +709,8 @@ func (tm *Manager) Updates() uint64 {
 }
 
 func (tm *Manager) runTask(t *Task) {
+	verifEmit("runner-enter", tm, t)
+	defer verifEmit("runner-exit", tm, t)
 	for {
 		select {
 		case <-tm.restart:
@@ -738,6 +743,8 @@ func (tm *Manager) runTask(t *Task) {
 // Ensures all running tasks stop
 // and calls [Manager.Run] in a new go routine.
 func (tm *Manager) Restart() error {
+	verifEmit("restart-enter", tm, nil)
+	defer verifEmit("restart-return", tm, nil)
 	close(tm.restart)
 	ec := make(chan error)
 	go tm.Run(ec)
@@ -753,6 +760,8 @@ func (tm *Manager) Restart() error {
 func (tm *Manager) Run(ec chan error) {
 	tm.running.Lock()
 	defer tm.running.Unlock()
+	verifEmit("run-locked", tm, nil)
+	defer verifEmit("run-return", tm, nil)
 
 	var err error
 	tm.tasks, err = loadTasks(tm.ctx, tm.pgp, tm.conf)
@@ -760,9 +769,14 @@ func (tm *Manager) Run(ec chan error) {
 		ec <- fmt.Errorf("loading tasks: %w", err)
 		return
 	}
+	for i := range tm.tasks {
+		verifEmit("task-loaded", tm, tm.tasks[i])
+	}
 	close(ec)
+	verifPoint("after-startup-signal", nil)
 
 	tm.restart = make(chan struct{})
+	verifEmit("restart-chan-remade", tm, nil)
 	var wg sync.WaitGroup
 	for i := range tm.tasks {
 		i := i
